@@ -268,24 +268,24 @@ theorem u78_A (e : D) (j7 : Option (List (S7 D))) (l8 : List (S8 D)) (pt : Bool)
   | some l => simp only [u78, stA]; split <;> rfl
 
 theorem u810_A {l8 : List (S8 D)} {m d} (h : C8 l8 m d) (pt : Bool) :
-    u810 (stA none l8 pt) = .ok (stD m d) := by
+    u810Core (stA none l8 pt) = .ok (stD m d) := by
   have hne := h.nonempty
   have hx := exec_plan8 h (XOK.none (m := m) (D := D))
   simp only [stB] at hx
-  simp [u810, u810With, stA, hne, h.newest, hx, stC, stD]
+  simp [u810Core, u810With, stA, hne, h.newest, hx, stC, stD]
 
 theorem u810_B {l8 : List (S8 D)} {m d} (h : C8 l8 m d) {x} (hx : XOK m x) :
-    u810 (stB l8 x m) = .ok (stD m d) := by
+    u810Core (stB l8 x m) = .ok (stD m d) := by
   have := exec_plan8 h hx
   simp only [stB] at this
-  simp [u810, u810With, u810Resume, stB, this, stC, stD]
+  simp [u810Core, u810With, u810Resume, stB, this, stC, stD]
 
 theorem u810_C (y : Option (List (S8 D))) (x) (m : Meta) (d : D) :
-    u810 (stC y x m d) = .ok (stD m d) := by
-  simp [u810, u810With, u810Resume, stC, stD]
+    u810Core (stC y x m d) = .ok (stD m d) := by
+  simp [u810Core, u810With, u810Resume, stC, stD]
 
-theorem u810_D (m : Meta) (d : D) : u810 (stD m d) = .ok (stD m d) := by
-  simp [u810, u810With, stD]
+theorem u810_D (m : Meta) (d : D) : u810Core (stD m d) = .ok (stD m d) := by
+  simp [u810Core, u810With, stD]
 
 theorem u78_noold (e : D) (s : US D) (h7 : s.old7 = none) (ht : s.old8tmp = none) : u78 e s = .ok s := by
   cases s
@@ -294,13 +294,13 @@ theorem u78_noold (e : D) (s : US D) (h7 : s.old7 = none) (ht : s.old8tmp = none
   rfl
 
 /-- a complete start from any reachable state ends in the upgraded store -/
-theorem start_inv {l8 : List (S8 D)} {m d} (e : D) (h : C8 l8 m d) {s : US D} (hs : Inv l8 m d s) :
-    start e s = .ok (stD m d) := by
+theorem startCore_inv {l8 : List (S8 D)} {m d} (e : D) (h : C8 l8 m d) {s : US D} (hs : Inv l8 m d s) :
+    startCore e s = .ok (stD m d) := by
   cases hs with
-  | A j7 pt => simp only [start, u78_A, u810_A h]
-  | B x hx => rw [start, u78_noold e _ rfl rfl]; exact u810_B h hx
-  | C y x => rw [start, u78_noold e _ rfl rfl]; exact u810_C y x m d
-  | D => rw [start, u78_noold e _ rfl rfl]; exact u810_D m d
+  | A j7 pt => simp only [startCore, u78_A, u810_A h]
+  | B x hx => rw [startCore, u78_noold e _ rfl rfl]; exact u810_B h hx
+  | C y x => rw [startCore, u78_noold e _ rfl rfl]; exact u810_C y x m d
+  | D => rw [startCore, u78_noold e _ rfl rfl]; exact u810_D m d
 
 theorem u78Cut_noold (e : D) (s : US D) (h7 : s.old7 = none) (ht : s.old8tmp = none) (c : Cut78 D) :
     u78Cut e s c = s := by
@@ -315,14 +315,14 @@ theorem isBC_inv {l8 : List (S8 D)} {m d} {t : US D} (h : IsBC l8 m d t) : Inv l
   · exact .C y none
 
 /-- an interrupted start keeps the state in `Inv` -/
-theorem startCut_inv {l8 : List (S8 D)} {m d} (e : D) (h : C8 l8 m d) {s : US D} (hs : Inv l8 m d s)
-    (c : StartCut D) : Inv l8 m d (startCut e s c) := by
+theorem startCoreCut_inv {l8 : List (S8 D)} {m d} (e : D) (h : C8 l8 m d) {s : US D} (hs : Inv l8 m d s)
+    (c : StartCut D) : Inv l8 m d (startCutCore e s c) := by
   have hne := h.nonempty
   cases hs with
   | A j7 pt =>
     cases c with
     | in78 c =>
-      simp only [startCut]
+      simp only [startCutCore]
       cases c with
       | start => exact .A j7 pt
       | rmTmp junk => exact .A j7 pt
@@ -341,38 +341,38 @@ theorem startCut_inv {l8 : List (S8 D)} {m d} (e : D) (h : C8 l8 m d) {s : US D}
             · exact .A (some l) pt
           · exact .A junk pt
     | in810 c =>
-      simp only [startCut, u78_A]
+      simp only [startCutCore, u78_A]
       cases c with
       | start => exact .A none pt
-      | planTmp => simp [u810Cut, stA, hne, h.newest]; exact .A none true
+      | planTmp => simp [u810CutCore, stA, hne, h.newest]; exact .A none true
       | inPlan k c8 =>
-        simp only [u810Cut, stA, hne, h.newest, Option.isSome_none, Bool.or_self, Bool.false_eq_true, if_false]
+        simp only [u810CutCore, stA, hne, h.newest, Option.isSome_none, Bool.or_self, Bool.false_eq_true, if_false]
         exact isBC_inv (runCut_plan8 h k c8 .none)
       | planDone =>
-        simp only [u810Cut, stA, hne, h.newest, Option.isSome_none, Bool.or_self, Bool.false_eq_true, if_false]
+        simp only [u810CutCore, stA, hne, h.newest, Option.isSome_none, Bool.or_self, Bool.false_eq_true, if_false]
         exact isBC_inv (runCut_plan8 h _ _ .none)
       | cleanup tj oj => exact .A none false
   | B x hx =>
     cases c with
-    | in78 c => simp only [startCut]; rw [u78Cut_noold e _ rfl rfl]; exact .B x hx
+    | in78 c => simp only [startCutCore]; rw [u78Cut_noold e _ rfl rfl]; exact .B x hx
     | in810 c =>
-      simp only [startCut]
+      simp only [startCutCore]
       rw [u78_noold e _ rfl rfl]
       cases c with
       | start => exact .B x hx
       | planTmp => exact .B x hx
       | inPlan k c8 =>
-        simp only [u810Cut, stB, Option.isSome_none, Bool.false_eq_true, if_false]
+        simp only [u810CutCore, stB, Option.isSome_none, Bool.false_eq_true, if_false]
         exact isBC_inv (runCut_plan8 h k c8 hx)
       | planDone =>
-        simp only [u810Cut, stB, Option.isSome_none, Bool.false_eq_true, if_false]
+        simp only [u810CutCore, stB, Option.isSome_none, Bool.false_eq_true, if_false]
         exact isBC_inv (runCut_plan8 h _ _ hx)
       | cleanup tj oj => exact .B x hx
   | C y x =>
     cases c with
-    | in78 c => simp only [startCut]; rw [u78Cut_noold e _ rfl rfl]; exact .C y x
+    | in78 c => simp only [startCutCore]; rw [u78Cut_noold e _ rfl rfl]; exact .C y x
     | in810 c =>
-      simp only [startCut]
+      simp only [startCutCore]
       rw [u78_noold e _ rfl rfl]
       cases c with
       | start => exact .C y x
@@ -382,9 +382,9 @@ theorem startCut_inv {l8 : List (S8 D)} {m d} (e : D) (h : C8 l8 m d) {s : US D}
       | cleanup tj oj => exact .C _ _
   | D =>
     cases c with
-    | in78 c => simp only [startCut]; rw [u78Cut_noold e _ rfl rfl]; exact .D
+    | in78 c => simp only [startCutCore]; rw [u78Cut_noold e _ rfl rfl]; exact .D
     | in810 c =>
-      simp only [startCut]
+      simp only [startCutCore]
       rw [u78_noold e _ rfl rfl]
       cases c <;> exact .D
 
@@ -425,20 +425,20 @@ theorem u78_P {e : D} {l7 : List (S7 D)} {m d} (h : C7 e l7 m d) (z) :
     u78 e (stP l7 z) = .ok (stA none (b8 m d) false) := by
   simp [u78, stP, h.nonempty, h.build, stA]
 
-theorem start_inv7 {e : D} {l7 : List (S7 D)} {m d} (h : C7 e l7 m d) {s : US D} (hs : Inv7 l7 m d s) :
-    start e s = .ok (stD m d) := by
+theorem startCore_inv7 {e : D} {l7 : List (S7 D)} {m d} (h : C7 e l7 m d) {s : US D} (hs : Inv7 l7 m d s) :
+    startCore e s = .ok (stD m d) := by
   cases hs with
-  | P z => simp only [start, u78_P h, u810_A (b8_C8 m d)]
-  | later s hs => exact start_inv e (b8_C8 m d) hs
+  | P z => simp only [startCore, u78_P h, u810_A (b8_C8 m d)]
+  | later s hs => exact startCore_inv e (b8_C8 m d) hs
 
-theorem startCut_inv7 {e : D} {l7 : List (S7 D)} {m d} (h : C7 e l7 m d) {s : US D} (hs : Inv7 l7 m d s)
-    (c : StartCut D) : Inv7 l7 m d (startCut e s c) := by
+theorem startCoreCut_inv7 {e : D} {l7 : List (S7 D)} {m d} (h : C7 e l7 m d) {s : US D} (hs : Inv7 l7 m d s)
+    (c : StartCut D) : Inv7 l7 m d (startCutCore e s c) := by
   cases hs with
-  | later s hs => exact .later _ (startCut_inv e (b8_C8 m d) hs c)
+  | later s hs => exact .later _ (startCoreCut_inv e (b8_C8 m d) hs c)
   | P z =>
     cases c with
     | in78 c =>
-      simp only [startCut]
+      simp only [startCutCore]
       cases c with
       | start => exact .P z
       | rmTmp junk =>
@@ -452,21 +452,197 @@ theorem startCut_inv7 {e : D} {l7 : List (S7 D)} {m d} (h : C7 e l7 m d) {s : US
         simp only [u78Cut, stP, h.nonempty, Bool.false_eq_true, if_false, Option.isSome_none, h.build]
         exact .later _ (.A junk false)
     | in810 c =>
-      have : startCut e (stP l7 z) (.in810 c) = startCut e (stA none (b8 m d) false) (.in810 c) := by
-        simp only [startCut, u78_P h, u78_A]
+      have : startCutCore e (stP l7 z) (.in810 c) = startCutCore e (stA none (b8 m d) false) (.in810 c) := by
+        simp only [startCutCore, u78_P h, u78_A]
       rw [this]
-      exact .later _ (startCut_inv e (b8_C8 m d) (.A none false) (.in810 c))
+      exact .later _ (startCoreCut_inv e (b8_C8 m d) (.A none false) (.in810 c))
 
-theorem foldl_startCut_inv {l8 : List (S8 D)} {m d} (e : D) (h : C8 l8 m d) (cuts : List (StartCut D)) :
-    ∀ {s : US D}, Inv l8 m d s → Inv l8 m d (cuts.foldl (startCut e) s) := by
+theorem foldl_startCutCore_inv {l8 : List (S8 D)} {m d} (e : D) (h : C8 l8 m d) (cuts : List (StartCut D)) :
+    ∀ {s : US D}, Inv l8 m d s → Inv l8 m d (cuts.foldl (startCutCore e) s) := by
   induction cuts with
   | nil => intro s hs; exact hs
-  | cons c cs ih => intro s hs; exact ih (startCut_inv e h hs c)
+  | cons c cs ih => intro s hs; exact ih (startCoreCut_inv e h hs c)
 
-theorem foldl_startCut_inv7 {e : D} {l7 : List (S7 D)} {m d} (h : C7 e l7 m d) (cuts : List (StartCut D)) :
-    ∀ {s : US D}, Inv7 l7 m d s → Inv7 l7 m d (cuts.foldl (startCut e) s) := by
+theorem foldl_startCutCore_inv7 {e : D} {l7 : List (S7 D)} {m d} (h : C7 e l7 m d) (cuts : List (StartCut D)) :
+    ∀ {s : US D}, Inv7 l7 m d s → Inv7 l7 m d (cuts.foldl (startCutCore e) s) := by
   induction cuts with
   | nil => intro s hs; exact hs
-  | cons c cs ih => intro s hs; exact ih (startCut_inv7 h hs c)
+  | cons c cs ih => intro s hs; exact ih (startCoreCut_inv7 h hs c)
+
+/-! ### the empty-new-directory fix as a layer over the core -/
+
+def setNew (x : Option (List (S10 D))) (s : US D) : US D := { s with new := x }
+
+theorem u78_setNew (e : D) (s : US D) (x) :
+    u78 e (setNew x s) = match u78 e s with
+      | .ok s1 => .ok (setNew x s1)
+      | .error err => .error err := by
+  cases s with
+  | mk o7 o8t o8 nt nw pl pt =>
+    cases o7 with
+    | none => rfl
+    | some l =>
+      by_cases h1 : l.isEmpty = true <;> by_cases h2 : o8.isSome = true <;> simp [u78, setNew, h1, h2]
+      cases build8 e l <;> simp
+
+theorem u78Cut_setNew (e : D) (s : US D) (x) (c : Cut78 D) :
+    u78Cut e (setNew x s) c = setNew x (u78Cut e s c) := by
+  cases s with
+  | mk o7 o8t o8 nt nw pl pt =>
+    cases c with
+    | start => rfl
+    | rmTmp junk => by_cases h : o8t.isSome = true <;> simp [u78Cut, setNew, h]
+    | building junk =>
+      cases o7 with
+      | none => rfl
+      | some l =>
+        by_cases h1 : l.isEmpty = true <;> by_cases h2 : o8.isSome = true <;> simp [u78Cut, setNew, h1, h2]
+    | rmOld junk =>
+      cases o7 with
+      | none => rfl
+      | some l =>
+        by_cases h1 : l.isEmpty = true <;> by_cases h2 : o8.isSome = true <;> by_cases h3 : junk.isNone = true <;>
+          simp [u78Cut, setNew, h1, h2, h3] <;> (cases build8 e l <;> simp)
+
+
+theorem setNew_self (s : US D) : setNew s.new s = s := by cases s; rfl
+
+theorem u78_new {e : D} {s s1 : US D} (h : u78 e s = .ok s1) : s1.new = s.new := by
+  have := u78_setNew e s s.new
+  rw [setNew_self, h] at this
+  simp only [Except.ok.injEq] at this
+  rw [this]; rfl
+
+theorem u78Cut_new (e : D) (s : US D) (c : Cut78 D) : (u78Cut e s c).new = s.new := by
+  have := u78Cut_setNew e s s.new c
+  rw [setNew_self] at this
+  rw [this]; rfl
+
+theorem rmEmptyNew_of_ne {s : US D} (h : s.new ≠ some []) : rmEmptyNew s = s := by
+  unfold rmEmptyNew
+  split
+  · rename_i h'; exact absurd h' h
+  · rfl
+
+theorem rmEmptyNew_setNew {t : US D} (h : t.new = none) : rmEmptyNew (setNew (some []) t) = t := by
+  cases t; simp only at h; subst h; rfl
+
+theorem u810Cut_of_ne {s : US D} (h : s.new ≠ some []) (c : Cut810 D) : u810Cut s c = u810CutCore s c := by
+  cases c <;> simp [u810Cut, rmEmptyNew_of_ne h] <;> rfl
+
+theorem start_eq_core (e : D) {s : US D} (h : s.new ≠ some []) : start e s = startCore e s := by
+  unfold start startCore
+  cases hu : u78 e s with
+  | error err => rfl
+  | ok s1 =>
+    simp only [u810]
+    rw [rmEmptyNew_of_ne]
+    rw [u78_new hu]; exact h
+
+theorem startCut_eq_core (e : D) {s : US D} (h : s.new ≠ some []) (c : StartCut D) :
+    startCut e s c = startCutCore e s c := by
+  cases c with
+  | in78 c => rfl
+  | in810 c =>
+    simp only [startCut, startCutCore]
+    cases hu : u78 e s with
+    | error err => rfl
+    | ok s1 => exact u810Cut_of_ne (by rw [u78_new hu]; exact h) c
+
+/-- what the core (the code before the empty-directory fix) guarantees on its own state family -/
+structure CoreOK (e : D) (P : US D → Prop) (fin : US D) : Prop where
+  start : ∀ s, P s → startCore e s = .ok fin
+  cut : ∀ s c, P s → P (startCutCore e s c)
+  newOK : ∀ s, P s → s.new ≠ some []
+
+/-- the state family with the data check of -auto-restore: additionally an empty new directory -/
+def Lift (P : US D → Prop) (s : US D) : Prop := P s ∨ ∃ t, P t ∧ t.new = none ∧ s = setNew (some []) t
+
+theorem start_lift {e : D} {P : US D → Prop} {fin : US D} (ok : CoreOK e P fin) {s : US D} (hs : Lift P s) :
+    start e s = .ok fin := by
+  rcases hs with hp | ⟨t, hp, hn, rfl⟩
+  · rw [start_eq_core e (ok.newOK s hp)]; exact ok.start s hp
+  · have hc := ok.start t hp
+    unfold start
+    unfold startCore at hc
+    rw [u78_setNew]
+    cases hu : u78 e t with
+    | error err => rw [hu] at hc; cases hc
+    | ok s1 =>
+      rw [hu] at hc
+      simp only [u810]
+      rw [rmEmptyNew_setNew (by rw [u78_new hu]; exact hn)]
+      exact hc
+
+theorem startCut_lift {e : D} {P : US D → Prop} {fin : US D} (ok : CoreOK e P fin) {s : US D} (hs : Lift P s)
+    (c : StartCut D) : Lift P (startCut e s c) := by
+  rcases hs with hp | ⟨t, hp, hn, rfl⟩
+  · rw [startCut_eq_core e (ok.newOK s hp)]; exact Or.inl (ok.cut s c hp)
+  · cases c with
+    | in78 c =>
+      refine Or.inr ⟨startCutCore e t (.in78 c), ok.cut t _ hp, ?_, ?_⟩
+      · show (u78Cut e t c).new = none
+        rw [u78Cut_new]; exact hn
+      · exact u78Cut_setNew e t _ c
+    | in810 c =>
+      have hcore := ok.cut t (.in810 c) hp
+      simp only [startCut, startCutCore] at hcore ⊢
+      rw [u78_setNew]
+      cases hu : u78 e t with
+      | error err =>
+        rw [hu] at hcore
+        exact Or.inr ⟨t, hp, hn, rfl⟩
+      | ok s1 =>
+        rw [hu] at hcore
+        have hn1 : s1.new = none := by rw [u78_new hu]; exact hn
+        simp only
+        cases c with
+        | start => exact Or.inr ⟨s1, hcore, hn1, rfl⟩
+        | planTmp => simp only [u810Cut, rmEmptyNew_setNew hn1]; exact Or.inl hcore
+        | inPlan k c' => simp only [u810Cut, rmEmptyNew_setNew hn1]; exact Or.inl hcore
+        | planDone => simp only [u810Cut, rmEmptyNew_setNew hn1]; exact Or.inl hcore
+        | cleanup a b => simp only [u810Cut, rmEmptyNew_setNew hn1]; exact Or.inl hcore
+
+theorem hasData_lift {e : D} {P : US D → Prop} {fin : US D} (ok : CoreOK e P fin) {s : US D} (hs : Lift P s) :
+    Lift P (hasData s) := by
+  rcases hs with hp | ⟨t, hp, hn, rfl⟩
+  · cases hn : s.new with
+    | none =>
+      refine Or.inr ⟨s, hp, hn, ?_⟩
+      cases s; simp only at hn; subst hn; rfl
+    | some l =>
+      have : hasData s = s := by simp [hasData, hn]
+      rw [this]; exact Or.inl hp
+  · exact Or.inr ⟨t, hp, hn, rfl⟩
+
+/-- one interrupted start, optionally preceded by the data check -/
+def startEvent (e : D) (s : US D) (ev : Bool × StartCut D) : US D :=
+  startCut e (if ev.1 then hasData s else s) ev.2
+
+theorem foldl_event_lift {e : D} {P : US D → Prop} {fin : US D} (ok : CoreOK e P fin) (evs : List (Bool × StartCut D)) :
+    ∀ {s : US D}, Lift P s → Lift P (evs.foldl (startEvent e) s) := by
+  induction evs with
+  | nil => intro s hs; exact hs
+  | cons ev evs ih =>
+    intro s hs
+    apply ih
+    unfold startEvent
+    cases ev.1
+    · exact startCut_lift ok hs _
+    · exact startCut_lift ok (hasData_lift ok hs) _
+
+theorem coreOK8 {l8 : List (S8 D)} {m d} (e : D) (h : C8 l8 m d) : CoreOK e (Inv l8 m d) (stD m d) where
+  start s hs := startCore_inv e h hs
+  cut s c hs := startCoreCut_inv e h hs c
+  newOK s hs := by cases hs <;> simp [stA, stB, stC, stD]
+
+theorem coreOK7 {e : D} {l7 : List (S7 D)} {m d} (h : C7 e l7 m d) : CoreOK e (Inv7 l7 m d) (stD m d) where
+  start s hs := startCore_inv7 h hs
+  cut s c hs := startCoreCut_inv7 h hs c
+  newOK s hs := by
+    cases hs with
+    | P z => simp [stP]
+    | later s hs => cases hs <;> simp [stA, stB, stC, stD]
+
 
 end RqModel.Upgrade
